@@ -121,3 +121,12 @@ func VerifPlanKeys(qp QueryPlan) []string {
 	}
 	return keys
 }
+
+// VerifAtPoint, when set, is called at named points of the code (scheduling points the harness wants to widen).
+var VerifAtPoint atomic.Value // func(name string)
+
+func verifPoint(name string) {
+	if f, ok := VerifAtPoint.Load().(func(string)); ok && f != nil {
+		f(name)
+	}
+}
